@@ -1,13 +1,14 @@
 (* C15/Check.v — correspondence + property oracle for one harness case (executable only).
 
    Case layouts (first token = tag, zigzag-encoded by wire.Int):
-   1 WAY_APPLY : t nodes updates | status erridx nodes' updates'
-   2 REL_APPLY : t members updates | status erridx members' updates'
+   1 WAY_APPLY : t nodes updates | status erridx nodes' updates' original_updates_afterwards
+   2 REL_APPLY : t members updates | status erridx members' updates' original_updates_afterwards
    3 COMPOSE   : kind(0 way,1 relation) t1 t2 children updates
                  | A1(status erridx children updates)   apply up to t1
                    A2(status erridx children updates)   then up to t2 on the same element (if A1 ok)
                    B (status erridx children updates)   apply up to t2 on a fresh copy
    4 LSAT      : t nodes updates | panicked points_at status_apply points_of_applied_copy
+                                   nodes_afterwards updates_afterwards (of the queried way)
    5 UPTO      : t updates | updates'
    6 SORT      : which(0 timestamp,1 index) updates | updates'
    7 GROUP     : at members ways(id nodes updates) | panicked outer inner tainted
@@ -83,8 +84,11 @@ Definition apply_oracle {C} (ceqb : C -> C -> bool) (spec : Z -> list update -> 
 Definition check_apply {C} (pc : P C) (upd : update -> C -> C) (ceqb : C -> C -> bool)
            (spec : Z -> list update -> Z -> C -> C) : P (list Z) :=
   t <- ptime ;; cs <- plist pc ;; us <- plist pupdate ;; o <- pobs pc ;;
+  orig_after <- plist pupdate ;;
   let j1 := res_matches ceqb (apply_updates_up_to upd t cs us) o in
-  let j2 := apply_oracle ceqb spec t cs us o in
+  (* the call ran on an ordinary copy (cp := *w, cloned children, shared update list): the
+     ORIGINAL's update list must be what it was *)
+  let j2 := apply_oracle ceqb spec t cs us o && list_eqb update_eqb us orig_after in
   ret (code_if j1 1 ++ code_if j2 2)%list.
 
 (* ---- COMPOSE ---- *)
@@ -116,6 +120,7 @@ Definition check_compose : P (list Z) :=
 Definition check_lsat : P (list Z) :=
   t <- ptime ;; ns <- plist pnode ;; us <- plist pupdate ;;
   panicked <- pbool ;; at_ <- plist ppoint ;; st <- pint ;; ls <- plist ppoint ;;
+  ns_after <- plist pnode ;; us_after <- plist pupdate ;;
   let j1 :=
     match line_string_at t ns us with
     | Some l => negb panicked && list_eqb point_eqb l at_
@@ -133,6 +138,8 @@ Definition check_lsat : P (list Z) :=
     then negb panicked && (st =? 0) && list_eqb point_eqb at_ ls
          && list_eqb point_eqb at_ (map node_point (spec_nodes t us ns))
     else true in
+  (* a query: the way is what it was *)
+  let j2 := j2 && list_eqb node_eqb ns ns_after && list_eqb update_eqb us us_after in
   ret (code_if j1 1 ++ code_if j2 2)%list.
 
 (* ---- UPTO ---- *)
